@@ -434,20 +434,28 @@ theorem criteria_spec_disp (J : CvInput) (invalid : Val) (isMax : Bool) (r c : N
 
 /-! ## Part 2 — the steps after the disparity step -/
 
+/-- on a border pixel (flag 1) every step except a regularising `median_for_intervals` leaves the flag at 1 -/
+theorem stepFlag_border_one (ops : Ops) (s : Step) (hs : s ≠ .filterIntervals true) :
+    stepFlag ops true s leftNodataOrBorder = leftNodataOrBorder := by
+  have hi : isInvalid 1 = true := by decide
+  cases s with
+  | refine st => simp [stepFlag, refinePix, leftNodataOrBorder, hi]
+  | filter => rfl
+  | filterIntervals reg => cases reg <;> simp_all [stepFlag]
+  | crossCheck d => simp [stepFlag, borderPix]
+  | interpMcCnn found => simp [stepFlag, borderPix]
+  | interpSgm near => simp [stepFlag, sgmPix, leftNodataOrBorder, occlusion, mismatch]
+
 /-- **Each step changes only its own bits** (`later_steps_own_bits`, `bits_independent`,
     `no_undocumented_bit`, `border_bit0_only` for one step): whenever the bit the step adds with `+=` is
-    currently clear — or the site uses `|=` — the observed transition satisfies the specification. -/
+    currently clear — or the site uses `|=` — the observed transition satisfies the specification; a border
+    pixel (flag 1) keeps flag 1 unless the step is a regularising `median_for_intervals`. -/
 theorem stepOK_of_clear (ops : Ops) (hreg : ops.reg = .or) (border : Bool) (s : Step) (f : Nat) (hlt : f < 4096)
-    (h : RaiseClear ops s f) : stepOK border s f (stepFlag ops border s f) = true := by
+    (h : RaiseClear ops s f) (hb : border = true → f = leftNodataOrBorder ∧ s ≠ .filterIntervals true) :
+    stepOK border s f (stepFlag ops border s f) = true := by
   unfold stepOK
-  cases hb : (border && rewritesBorder s)
-  · have e : stepFlag ops border s f = stepFlag ops false s f := by
-      cases border
-      · rfl
-      · simp only [Bool.true_and] at hb
-        exact stepFlag_border_irrelevant ops s f true hb
-    rw [e]
-    simp only [Bool.false_eq_true, if_false, Bool.and_eq_true]
+  cases border
+  · simp only [Bool.false_eq_true, if_false, Bool.and_eq_true]
     refine ⟨⟨?_, ?_⟩, ?_⟩
     · unfold onlyOwnRaised
       rw [List.all_eq_true]
@@ -465,10 +473,9 @@ theorem stepOK_of_clear (ops : Ops) (hreg : ops.reg = .or) (border : Bool) (s : 
         simp [expected_cleared_may s f k hq]
     · unfold documentedOnly
       simpa using stepFlag_lt ops hreg false s f hlt
-  · simp only [Bool.and_eq_true] at hb
-    rw [hb.1, stepFlag_border_rewrite ops s f hb.2]
+  · obtain ⟨hf, hs⟩ := hb rfl
+    rw [hf, stepFlag_border_one ops s hs]
     simp
-
 
 /-! ### any pipeline -/
 
@@ -489,29 +496,42 @@ def NoRepeat (steps : List Step) : Bool :=
 /-- what the criteria mask guarantees to the later steps: below 256, bits 3, 4, 5 clear -/
 def FlagInit (f : Nat) : Prop := f < 256 ∧ f.testBit 3 = false ∧ f.testBit 4 = false ∧ f.testBit 5 = false
 
+/-- no regularising `median_for_intervals` step is applied to a border pixel -/
+def BorderSafe (border : Bool) (steps : List Step) : Bool :=
+  !border || steps.all fun s => s != .filterIntervals true
+
 /-- the invariant: bit 3 is clear while a refinement is still to come, bits 4 and 5 while an interpolation is
-    still to come, bits 8 and 9 are never both set -/
-def FlagInv (steps : List Step) (f : Nat) : Prop :=
+    still to come, bits 8 and 9 are never both set, a border pixel carries exactly bit 0 -/
+def FlagInv (border : Bool) (steps : List Step) (f : Nat) : Prop :=
   f < 4096 ∧ (f.testBit 8 && f.testBit 9) = false
   ∧ (1 ≤ steps.countP isRefine → f.testBit 3 = false)
   ∧ (1 ≤ steps.countP isFill → f.testBit 4 = false ∧ f.testBit 5 = false)
   ∧ steps.countP isRefine ≤ 1 ∧ steps.countP isFill ≤ 1
+  ∧ (border = true → f = leftNodataOrBorder ∧ BorderSafe border steps = true)
 
-theorem flagInv_of_init (steps : List Step) (f : Nat) (h : FlagInit f) (hn : NoRepeat steps = true) :
-    FlagInv steps f := by
+theorem flagInv_of_init (border : Bool) (steps : List Step) (f : Nat) (h : FlagInit f) (hn : NoRepeat steps = true)
+    (hb : border = true → f = leftNodataOrBorder ∧ BorderSafe border steps = true) :
+    FlagInv border steps f := by
   obtain ⟨h1, h3, h4, h5⟩ := h
   unfold NoRepeat at hn
   simp only [Bool.and_eq_true, decide_eq_true_eq] at hn
   have h8 : f.testBit 8 = false := Nat.testBit_lt_two_pow (by omega)
-  exact ⟨by omega, by simp [h8], fun _ => h3, fun _ => ⟨h4, h5⟩, hn.1, hn.2⟩
+  exact ⟨by omega, by simp [h8], fun _ => h3, fun _ => ⟨h4, h5⟩, hn.1, hn.2, hb⟩
 
-theorem raiseClear_of_inv (ops : Ops) (s : Step) (ss : List Step) (f : Nat) (h : FlagInv (s :: ss) f) :
-    RaiseClear ops s f := by
-  obtain ⟨_, h89, h3, h45, _, _⟩ := h
+theorem raiseClear_of_inv (ops : Ops) (border : Bool) (s : Step) (ss : List Step) (f : Nat)
+    (h : FlagInv border (s :: ss) f) : RaiseClear ops s f := by
+  obtain ⟨_, h89, h3, h45, _, _, _⟩ := h
   cases s <;> simp only [RaiseClear]
   · exact Or.inr (h3 (by simp [isRefine]))
   · have := h45 (by simp [isFill]); exact Or.inr this
   · have := h45 (by simp [isFill]); exact Or.inr ⟨this.1, this.2, h89⟩
+
+theorem borderSafe_cons (border : Bool) (s : Step) (ss : List Step) (h : BorderSafe border (s :: ss) = true)
+    (hb : border = true) : s ≠ .filterIntervals true ∧ BorderSafe border ss = true := by
+  unfold BorderSafe at h ⊢
+  subst hb
+  simp only [Bool.not_true, Bool.false_or, List.all_cons, Bool.and_eq_true, bne_iff_ne, ne_eq] at h ⊢
+  exact ⟨h.1, by simpa using h.2⟩
 
 theorem expectedBit_3 (s : Step) (f : Nat) (h : isRefine s = false) : expectedBit s f 3 = f.testBit 3 := by
   cases s <;> simp [isRefine] at h <;> simp [expectedBit]
@@ -538,19 +558,13 @@ theorem expectedBit_89 (s : Step) (f : Nat) (h89 : (f.testBit 8 && f.testBit 9) 
   · simp
 
 theorem flagInv_step (ops : Ops) (hreg : ops.reg = .or) (border : Bool) (s : Step) (ss : List Step) (f : Nat)
-    (h : FlagInv (s :: ss) f) : FlagInv ss (stepFlag ops border s f) := by
-  have hc := raiseClear_of_inv ops s ss f h
-  obtain ⟨hlt, h89, h3, h45, cR, cF⟩ := h
+    (h : FlagInv border (s :: ss) f) : FlagInv border ss (stepFlag ops border s f) := by
+  have hc := raiseClear_of_inv ops border s ss f h
+  obtain ⟨hlt, h89, h3, h45, cR, cF, hB⟩ := h
   simp only [List.countP_cons] at h3 h45 cR cF
-  cases hb : (border && rewritesBorder s)
-  · have e : stepFlag ops border s f = stepFlag ops false s f := by
-      cases border
-      · rfl
-      · simp only [Bool.true_and] at hb
-        exact stepFlag_border_irrelevant ops s f true hb
-    rw [e]
-    have hbit : ∀ j, (stepFlag ops false s f).testBit j = expectedBit s f j := fun j => stepFlag_testBit ops hreg s f j hc
-    refine ⟨stepFlag_lt ops hreg false s f hlt, ?_, ?_, ?_, ?_, ?_⟩
+  cases border
+  · have hbit : ∀ j, (stepFlag ops false s f).testBit j = expectedBit s f j := fun j => stepFlag_testBit ops hreg s f j hc
+    refine ⟨stepFlag_lt ops hreg false s f hlt, ?_, ?_, ?_, ?_, ?_, ?_⟩
     · rw [hbit, hbit]; exact expectedBit_89 s f h89
     · intro hcnt
       have hs : isRefine s = false := by
@@ -568,30 +582,42 @@ theorem flagInv_step (ops : Ops) (hreg : ops.reg = .or) (border : Bool) (s : Ste
       exact h45 (by simp only [hs]; omega)
     · omega
     · omega
-  · simp only [Bool.and_eq_true] at hb
-    rw [hb.1, stepFlag_border_rewrite ops s f hb.2]
-    refine ⟨by simp [leftNodataOrBorder], by decide, fun _ => by decide, fun _ => by decide, by omega, by omega⟩
+    · intro hb; cases hb
+  · obtain ⟨hf, hsafe⟩ := hB rfl
+    obtain ⟨hs, hsafe'⟩ := borderSafe_cons true s ss hsafe rfl
+    rw [hf, stepFlag_border_one ops s hs]
+    refine ⟨by simp [leftNodataOrBorder], by decide, fun _ => by decide, fun _ => by decide, by omega, by omega,
+      fun _ => ⟨rfl, hsafe'⟩⟩
 
 /-- **Pipelines without a repeated refinement or interpolation** (`…_partial`): with the `+=` of the source,
-    from any flag the criteria can produce, every step of the run changes only its own bits.
+    from any flag the criteria can produce, every step of the run changes only its own bits, and a border pixel
+    keeps exactly bit 0 as long as no regularising `median_for_intervals` touches it.
     (Full-strength statement — for *every* pipeline — is `run_ok_of_or` below; it needs `|=`.
-    It is false for `+=`: `repeated_refinement_counterexample`, `repeated_interpolation_counterexample`.) -/
+    It is false for `+=`: `repeated_refinement_counterexample`, `repeated_interpolation_counterexample`;
+    and false on the border after a regularisation: `border_regularized_counterexample`.) -/
 theorem run_ok_partial (ops : Ops) (hreg : ops.reg = .or) (border : Bool) (steps : List Step) (f : Nat)
-    (hinit : FlagInit f) (hn : NoRepeat steps = true) : runOK ops border steps f = true := by
-  have hinv := flagInv_of_init steps f hinit hn
-  clear hinit hn
+    (hinit : FlagInit f) (hn : NoRepeat steps = true)
+    (hb : border = true → f = leftNodataOrBorder ∧ BorderSafe border steps = true) :
+    runOK ops border steps f = true := by
+  have hinv := flagInv_of_init border steps f hinit hn hb
+  clear hinit hn hb
   induction steps generalizing f with
   | nil => rfl
   | cons s ss ih =>
     unfold runOK
     rw [Bool.and_eq_true]
-    exact ⟨stepOK_of_clear ops hreg border s f hinv.1 (raiseClear_of_inv ops s ss f hinv),
+    refine ⟨stepOK_of_clear ops hreg border s f hinv.1 (raiseClear_of_inv ops border s ss f hinv) ?_,
       ih _ (flagInv_step ops hreg border s ss f hinv)⟩
+    intro hb
+    obtain ⟨hf, hsafe⟩ := hinv.2.2.2.2.2.2 hb
+    exact ⟨hf, (borderSafe_cons border s ss hsafe hb).1⟩
 
 /-- **Every pipeline, when the sites raise their bits with `|=`** (`later_steps_own_bits`, `bits_independent`,
     `no_undocumented_bit` at full strength — the statement the proposed fix establishes). -/
 theorem run_ok_of_or (ops : Ops) (h : ops.refine = .or ∧ ops.fill = .or ∧ ops.reg = .or) (border : Bool)
-    (steps : List Step) (f : Nat) (hlt : f < 4096) : runOK ops border steps f = true := by
+    (steps : List Step) (f : Nat) (hlt : f < 4096)
+    (hb : border = true → f = leftNodataOrBorder ∧ BorderSafe border steps = true) :
+    runOK ops border steps f = true := by
   induction steps generalizing f with
   | nil => rfl
   | cons s ss ih =>
@@ -599,7 +625,26 @@ theorem run_ok_of_or (ops : Ops) (h : ops.refine = .or ∧ ops.fill = .or ∧ op
     rw [Bool.and_eq_true]
     have hc : RaiseClear ops s f := by
       cases s <;> simp only [RaiseClear] <;> first | exact Or.inl h.1 | exact Or.inl h.2.1 | trivial
-    exact ⟨stepOK_of_clear ops h.2.2 border s f hlt hc, ih _ (stepFlag_lt ops h.2.2 border s f hlt)⟩
+    have hb' : border = true → f = leftNodataOrBorder ∧ s ≠ .filterIntervals true := fun hbt =>
+      ⟨(hb hbt).1, (borderSafe_cons border s ss (hb hbt).2 hbt).1⟩
+    refine ⟨stepOK_of_clear ops h.2.2 border s f hlt hc hb', ih _ (stepFlag_lt ops h.2.2 border s f hlt) ?_⟩
+    intro hbt
+    obtain ⟨hf, hs⟩ := hb' hbt
+    subst hbt
+    rw [hf, stepFlag_border_one ops s hs]
+    exact ⟨rfl, (borderSafe_cons true s ss (hb rfl).2 rfl).2⟩
+
+/-- **Border pixels after a regularising `median_for_intervals`**: the step raises bit 11 on a border pixel it
+    lists in `mask_regularization` — "image-border pixels carry bit 0 only" is then false until the next
+    `mask_border` (cross-checking, mc-cnn interpolation). -/
+theorem border_regularized_counterexample (ops : Ops) (h : ops.reg = .or) :
+    stepFlag ops true (.filterIntervals true) leftNodataOrBorder = 2049
+    ∧ stepOK true (.filterIntervals true) leftNodataOrBorder (stepFlag ops true (.filterIntervals true) leftNodataOrBorder) = false
+    ∧ stepFlag ops true (.crossCheck .consistent) 2049 = leftNodataOrBorder := by
+  obtain ⟨r, c, fl, g⟩ := ops
+  simp only at h
+  subst h
+  cases r <;> cases c <;> cases fl <;> decide
 
 /-- **The full-strength statement is false for `+=`**: a second refinement that stops again on the same pixel
     turns "stopped interpolation" (8) into "filled occlusion" (16) — bit 3 cleared, bit 4 raised. -/
@@ -725,10 +770,11 @@ theorem flagInit_modelMask (J : CvInput) (r c : Nat) (hd : J.dmin ≤ J.dmax) (h
     every in-image pixel, and every sequence of later steps with arbitrary decisions:
     (1) the mask built with the cost volume satisfies every "before validation" clause (`criteria_spec`);
     (2) no undocumented bit ever appears, whatever is repeated;
-    (3) when no refinement and no interpolation is repeated, each step changes only its own bits;
+    (3) when no refinement and no interpolation is repeated (and no regularisation touches a border pixel),
+        each step changes only its own bits and border pixels keep exactly bit 0;
     (4) were every site to use `|=`, (3) would hold for every pipeline. -/
 theorem source_story (J : CvInput) (invalid : Val) (r c : Nat) (hd : J.dmin ≤ J.dmax) (hr : r < J.rows) (hc : c < J.cols)
-    (steps : List Step) :
+    (steps : List Step) (hsafe : BorderSafe (isBorder J.toInput r c) steps = true) :
     failingClauses J invalid r c (modelMask J r c) (allNanOf J r c) none = []
     ∧ runFlags sourceOps (isBorder J.toInput r c) steps (modelMask J r c) < 4096
     ∧ (NoRepeat steps = true → runOK sourceOps (isBorder J.toInput r c) steps (modelMask J r c) = true)
@@ -736,10 +782,13 @@ theorem source_story (J : CvInput) (invalid : Val) (r c : Nat) (hd : J.dmin ≤ 
         runOK sourceOps (isBorder J.toInput r c) steps (modelMask J r c) = true) := by
   have hinit := flagInit_modelMask J r c hd hr hc
   have hlt : modelMask J r c < 4096 := by have := hinit.1; omega
+  have hb : isBorder J.toInput r c = true →
+      modelMask J r c = leftNodataOrBorder ∧ BorderSafe (isBorder J.toInput r c) steps = true :=
+    fun hbt => ⟨(criteria_border J r c hbt).1, hsafe⟩
   exact ⟨criteria_spec J invalid r c hd hr hc,
     run_lt_4096 sourceOps source_reg_or _ steps _ hlt,
-    fun hn => run_ok_partial sourceOps source_reg_or _ steps _ hinit hn,
-    fun h => run_ok_of_or sourceOps ⟨h.1, h.2, source_reg_or⟩ _ steps _ hlt⟩
+    fun hn => run_ok_partial sourceOps source_reg_or _ steps _ hinit hn hb,
+    fun h => run_ok_of_or sourceOps ⟨h.1, h.2, source_reg_or⟩ _ steps _ hlt hb⟩
 
 /-- ... and, as long as the source raises bit 3 with `+=`, the repeated refinement really breaks the
     independence of the bits (this theorem stays true, vacuously, once the source is fixed). -/
